@@ -130,7 +130,7 @@ def run_real(tokens):
                         f = act.split('~')
                         if f[0] == 's':
                             p = get_probe(f[1], int(f[2]), int(f[3]), f[4], [])
-                            bus.subscribe(f[1], p, priority=int(f[3]))
+                            do_subscribe(f[1], p, int(f[3]))
                         elif f[0] == 'u':
                             p = probes.get((f[1], int(f[2])))
                             if p is not None:
@@ -156,6 +156,20 @@ def run_real(tokens):
             if key not in probes:
                 probes[key] = Probe(ch, lid, prio, out, acts)
             return probes[key]
+
+        def do_subscribe(ch, p, prio):
+            # the three ways a priority reaches the bus: explicit argument, the callback's
+            # `priority` attribute, or the default (50) when neither is given
+            route = p.lid % 3
+            if route == 1:
+                p.priority = prio
+                bus.subscribe(ch, p)
+            elif route == 2 and prio == 50:
+                if hasattr(p, 'priority'):
+                    del p.priority
+                bus.subscribe(ch, p)
+            else:
+                bus.subscribe(ch, p, priority=prio)
 
         cls_publish = wspbus.Bus.publish
 
@@ -197,7 +211,8 @@ def run_real(tokens):
                 if f[0] == 'sub':
                     acts = [] if f[5] == '-' else f[5].split('+')
                     p = get_probe(f[1], int(f[2]), int(f[3]), f[4], acts)
-                    bus.subscribe(f[1], p, priority=int(f[3]))
+                    p.prio = int(f[3])      # a top-level re-subscribe overwrites the priority
+                    do_subscribe(f[1], p, int(f[3]))
                 elif f[0] == 'unsub':
                     p = probes.get((f[1], int(f[2])))
                     if p is not None:
@@ -438,14 +453,22 @@ def gen_case(rng, big=False):
     toks = ['sub:%s:%d:%d:%s:%s' % (l[0], l[1], l[2], l[3], '+'.join(l[4]) or '-') for l in listeners]
     ncalls = rng.randint(1, 6)
     for _ in range(ncalls):
-        k = rng.choices(['start', 'stop', 'exit', 'restart', 'graceful', 'pub', 'unsub', 'sub'],
-                        weights=[25, 20, 14, 6, 8, 14, 7, 6])[0]
+        k = rng.choices(['start', 'stop', 'exit', 'restart', 'graceful', 'pub', 'unsub', 'sub', 'resub'],
+                        weights=[25, 20, 14, 6, 8, 14, 7, 6, 6])[0]
         if k == 'pub':
             toks.append('pub:%s' % rng.choice(['c1', 'c2', 'main', 'graceful', 'c7']))
         elif k == 'unsub':
             if listeners:
                 t = rng.choice(listeners)
                 toks.append('unsub:%s:%d' % (t[0], t[1]))
+        elif k == 'resub':
+            # same callback again with a new, unique priority: the set is unchanged, the priority is
+            cands = [l for l in listeners if l[0] != 'log']
+            if cands:
+                t = rng.choice(cands)
+                nid[0] += 1
+                t[2] = rng.choice([1, 300]) + nid[0]
+                toks.append('sub:%s:%d:%d:%s:%s' % (t[0], t[1], t[2], t[3], '+'.join(t[4]) or '-'))
         elif k == 'sub':
             nid[0] += 1
             toks.append('sub:%s:%d:%d:%s:-' % (rng.choice(['start', 'stop', 'exit', 'c1']), 200 + nid[0],
@@ -523,10 +546,13 @@ def run(ctx):
 
 def search(ctx, around=None):
     """Deeper hunt for an input on which the property itself fails on the real code."""
-    cases = [gen_case(ctx.rng, big=(i % 3 == 0)) for i in range(20000)]
+    cases = [gen_case(ctx.rng, big=(i % 3 == 0)) for i in range(ctx.budget(8000, 40000))]
     check_cases(ctx, cases, compare=False)
     if not ctx.oracle_failures:
-        check_cases(ctx, list(enum_small()), compare=False)
+        small = list(enum_small())
+        if ctx.quick():
+            small = ctx.rng.sample(small, 25000)
+        check_cases(ctx, small, compare=False)
 
 
 def replay(ctx, case):
